@@ -99,7 +99,7 @@ class C13(BaseCheck):
   REQUIRED_CLASSES = ('headers', 'ctx:ascii', 'ctx:utf8', 'ctx:empty', 'ctx:long', 'ctx:none',
                       'deadline', 'client-id', 'reply:OK', 'reply:ERROR', 'reply:NACK', 'reply:Rerr',
                       'reply:BAD_Rerr', 'tdiscarded', 'wire', 'wire:requests-while-opening', 'wire:simultaneous-discards', 'wire:stalled-across-ping',
-                      'wire:short-sends')
+                      'wire:short-sends', 'wire:after-unserialisable-call')
   ASSUMPTIONS = ('context keys/values are text; encoded length of each <= 32767 bytes (int16 length field)',
                  'deadline context = (whole-second wall-clock timestamp in ns, absolute deadline in ns), '
                  'deadline compared with 1us tolerance for the float->ns conversion')
@@ -406,6 +406,13 @@ class C13(BaseCheck):
       # the free space): the frame must still arrive whole
       srv.sim.send_limit = rng.choice([1, 5, 33, 150])
     sent = []
+    bad_first = rng.random() < 0.3
+    if bad_first:
+      # a call whose argument cannot be serialised (it fails at the caller, nothing is sent) right
+      # before ordinary calls on the same client: their frames must be unaffected
+      m_, a_ = rng.choice([('echo', (4711,)), ('echo', ('a', 'b', 'c')), ('add', ('x', 'y')), ('swap', ('not-a-struct',))])
+      w.call(m_, a_, timeout=2.0)
+      env.advance(rng.choice([0.0, 0.01]))
     for _ in range(rng.randint(2, 8)):
       s_ = gen_text(rng, False)
       rec = w.call('echo', ('c%d-%s' % (len(w.calls), s_),), timeout=rng.choice([0.5, 2.0, 30.0]))
@@ -501,6 +508,7 @@ class C13(BaseCheck):
     out.classes = ['wire', 'wire:discards'] + (['wire:stalled-across-ping'] if stalled else [])
     out.classes = out.classes + (['wire:simultaneous-discards'] if len(want) > 1 else [])
     out.classes = out.classes + (['wire:short-sends'] if short else [])
+    out.classes = out.classes + (['wire:after-unserialisable-call'] if bad_first else [])
     out.nontrivial = len(srv.requests) > 0
     out.extra = {'wire_frames': len(srv.requests), 'pings_seen': len(srv.pings)}
     out.sig = ('wire', client_id[:8], len(sent), stalled)
